@@ -657,8 +657,7 @@ def _stmt_containing(loop, node):
     return None
 
 
-def _schedule(repo, col):
-    R = "R-C01-schedule"
+def _schedule(repo, col, R="R-C01-schedule"):
     for fname, want_rev, pre, loop_order, post in (
         ("_triang_branched", True, [], ["_triang_level", "_eliminate_children_lower", "_eliminate_parents_upper"], ["_triang_level"]),
         ("_backsub_branched", False, ["_backsub_level"], ["_eliminate_parents_lower", "_eliminate_children_upper", "_backsub_level"], []),
@@ -768,7 +767,7 @@ def _schedule(repo, col):
                 if v_.op in ("free", "name", "global"):
                     got[nm_] = v_.name
         col.check(got == kernels, R, fi, f"{fname}: kernel per solver name", str(got), f"kernels are {got}, expected {kernels}", node=node)
-        _level_io(repo, col, fi)
+        _level_io(repo, col, fi, R)
         if fname == "_backsub_level":
             # the rows of a back-substituted level are SOLVED (solves holds x): their diagonal is handed on as 1, for every compartment
             # of the level's branches -- the next level divides by diags[last(parent)] when it eliminates the parents' lower couplings
@@ -792,9 +791,8 @@ def _schedule(repo, col):
                           f"compartment", node=node)
 
 
-def _level_io(repo, col, fi):
+def _level_io(repo, col, fi, R="R-C01-schedule"):
     """Gathers / scatters of one level use branch/lower/upper consistently."""
-    R = "R-C01-schedule"
     ev = _arr_eval(repo)
     args = _abstract_args(fi)
     calls = {}
